@@ -147,6 +147,28 @@ def load_known_findings():
     return [f for f in data.get('findings', []) if f.get('status') == 'known']
 
 
+MATCHERS = {}
+
+
+def matcher(name):
+    def deco(f):
+        MATCHERS[name] = f
+        return f
+    return deco
+
+
+def match_known(prop, case, fails):
+    """a failing input that is a recorded known finding (specific signature)? -> description or None"""
+    for f in load_known_findings():
+        if prop in f.get('properties', []) and f.get('matcher') in MATCHERS:
+            try:
+                if MATCHERS[f['matcher']](case, fails):
+                    return '%s %s' % (f['id'], f.get('what', ''))
+            except Exception:
+                pass
+    return None
+
+
 def write_replay(prop, tag, payload):
     os.makedirs(REPLAY_DIR, exist_ok=True)
     h = hashlib.sha1(json.dumps(payload, sort_keys=True, default=str).encode()).hexdigest()[:10]
